@@ -310,6 +310,9 @@ type env struct {
 	scopes  []map[string]*val // names declared in each open block with the binding they shadow
 	// local function literals bound to a name (called only as `return f(args)`, translated inline)
 	closures map[string]*ast.FuncLit
+	// mutexes locked on this path and not released by a deferred unlock: a return while one is held
+	// fails the translation (the generated definitions do not model locks; a leak must not pass)
+	locks map[string]bool
 }
 
 func (e env) clone() env {
@@ -328,6 +331,10 @@ func (e env) clone() env {
 	n.closures = map[string]*ast.FuncLit{}
 	for k, v := range e.closures {
 		n.closures[k] = v
+	}
+	n.locks = map[string]bool{}
+	for k, v := range e.locks {
+		n.locks[k] = v
 	}
 	for _, s := range e.scopes {
 		c := map[string]*val{}
@@ -2032,6 +2039,38 @@ func trBlock(list []ast.Stmt, en env, k cont) string {
 	return trStmts(list, inner, func(e env) string { return k(e.pop()) })
 }
 
+// lockEffect: x.Lock() / x.RLock() takes x; x.Unlock() / x.RUnlock() releases it
+func lockEffect(c *ast.CallExpr, en env, deferred bool) env {
+	sel, ok := c.Fun.(*ast.SelectorExpr)
+	if !ok {
+		return en
+	}
+	m := render(sel.X)
+	switch sel.Sel.Name {
+	case "Lock", "RLock":
+		if deferred {
+			fail(c.Pos(), "deferred lock of %s", m)
+		}
+		e := en.clone()
+		e.locks[m] = true
+		return e
+	case "Unlock", "RUnlock":
+		e := en.clone()
+		delete(e.locks, m)
+		return e
+	}
+	return en
+}
+
+func heldLocks(en env) string {
+	var l []string
+	for k := range en.locks {
+		l = append(l, k)
+	}
+	sort.Strings(l)
+	return strings.Join(l, ", ")
+}
+
 func isSkippableCall(c *ast.CallExpr) bool {
 	fn := render(c.Fun)
 	if strings.HasPrefix(fn, "log.") || fn == "t.Helper" {
@@ -2447,6 +2486,9 @@ func tryJoin(s ast.Stmt, rest []ast.Stmt, en env, k cont) (out string, ok bool) 
 	tail := trStmts(rest, restEnv, k)
 	inJoinAttempt[s] = true
 	body := trStmts([]ast.Stmt{s}, e0, func(e env) string {
+		if heldLocks(e) != heldLocks(e0) {
+			fail(s.Pos(), "the locks held differ between the paths through this statement")
+		}
 		var args []string
 		e = e.clone()
 		for _, p := range places {
@@ -2488,7 +2530,7 @@ func trStmts(list []ast.Stmt, en env, k cont) string {
 	case *ast.ExprStmt:
 		if c, ok := v.X.(*ast.CallExpr); ok {
 			if isSkippableCall(c) {
-				return next(en)
+				return next(lockEffect(c, en, false))
 			}
 			if render(c.Fun) == "delete" && len(c.Args) == 2 {
 				r := render(c.Args[0])
@@ -2572,7 +2614,7 @@ func trStmts(list []ast.Stmt, en env, k cont) string {
 		fail(v.Pos(), "send on channel %s", render(v.Chan))
 	case *ast.DeferStmt:
 		if isSkippableCall(v.Call) {
-			return next(en)
+			return next(lockEffect(v.Call, en, true))
 		}
 		if fl, ok := v.Call.Fun.(*ast.FuncLit); ok && cur != nil && cur.errChan && len(fl.Body.List) == 1 {
 			// defer func() { doneCh <- struct{}{} }(): the completion signal, sent on every path
@@ -3002,6 +3044,9 @@ func tbResult(en env, b string) string {
 }
 
 func trReturn(r *ast.ReturnStmt, en env) string {
+	if len(en.locks) > 0 {
+		fail(r.Pos(), "return while %s is locked (no deferred unlock, and not unlocked on this path)", heldLocks(en))
+	}
 	if cur != nil && cur.tbFatal && len(r.Results) == 0 {
 		en = absorb(en)
 		lets := takeLets()
@@ -3155,7 +3200,7 @@ func translate(sp *fnSpec, files map[string]*ast.File, srcs map[string][]byte) (
 	counter = 0
 	loopIndex = 0
 	joinIndex = 0
-	en := env{vars: map[string]val{}, bound: map[string]string{}, isNil: map[string]bool{}, closures: map[string]*ast.FuncLit{}}
+	en := env{vars: map[string]val{}, bound: map[string]string{}, isNil: map[string]bool{}, closures: map[string]*ast.FuncLit{}, locks: map[string]bool{}}
 	var binders []string
 	// Go parameters, in order, must be the ones the spec lists
 	var goParams []string
